@@ -116,6 +116,56 @@ def _pairs_task(task):
     return part
 
 
+def _mixed_task(_):
+    """An operand whose quantity holds TWO units of one quantity type (obtainable only through
+    Quantity.CreateDerived / ObtainQuantity with a hand-made map, so outside the letter of the property's
+    quantifier): a+b, a-b, b+a, b-a, (a+b)-b still denote the right physical amounts; the units of the result
+    are not judged (the implementation unifies them)."""
+    from collections import OrderedDict
+
+    from barril.units import Quantity
+
+    from .c04 import MIXED
+
+    part = Part()
+    S = Scalar
+    partners = {
+        0: [lambda: S(2.0, "m", "length") * S(3.0, "m", "depth"), lambda: S(5.0, "cm", "length") * S(7.0, "km", "depth"), lambda: S(2.0, "cm", "depth") * S(3.0, "cm", "depth")],
+        1: [lambda: (S(2.0, "m", "length") * S(3.0, "m", "depth")) / S(5.0, "s", "time"), lambda: (S(2.0, "cm", "length") * S(3.0, "km", "depth")) / S(5.0, "min", "time")],
+        2: [lambda: S(2.0, "kg", "mass") * S(3.0, "m", "length"), lambda: S(2.0, "g", "mass") * S(3.0, "cm", "depth")],
+    }
+    with worlds.world("posc") as db:
+        model = Model(db)
+        for k, (name, entries) in enumerate(MIXED):
+            mk = lambda: S(Quantity.CreateDerived(OrderedDict((c, list(ue)) for c, ue in entries)), 60.0)  # noqa: E731
+            ma = model.base_magnitude(mk().GetQuantity(), 60.0)
+            others = partners[k] + [lambda: S(Quantity.CreateDerived(OrderedDict((c, list(ue)) for c, ue in entries)), -7.0)]
+            for j, mkb in enumerate(others):
+                b0 = mkb()
+                mb = model.base_magnitude(b0.GetQuantity(), b0.value)
+                scale = max(abs(ma), abs(mb))
+                for label, f, want in (
+                    ("a + b", lambda: mk() + mkb(), ma + mb),
+                    ("a - b", lambda: mk() - mkb(), ma - mb),
+                    ("b + a", lambda: mkb() + mk(), ma + mb),
+                    ("b - a", lambda: mkb() - mk(), mb - ma),
+                    ("(a + b) - b", lambda: (mk() + mkb()) - mkb(), ma),
+                    ("(b + a) - a", lambda: (mkb() + mk()) - mk(), mb),
+                ):
+                    part.count("evaluations")
+                    part.count("mixed_unit_sums")
+                    sig = "C03:mixed-units:a = Scalar(CreateDerived(%s), 60.0), b = %r: %s" % (name, b0, label)
+                    try:
+                        r = f()
+                    except Exception as e:
+                        part.violation(sig + ":raised", {"error": repr(e)})
+                        continue
+                    got = model.base_magnitude(r.GetQuantity(), r.value)
+                    if model.dimension(r.GetQuantity()) != model.dimension(b0.GetQuantity()) or not close(got, want, scale, TOL):
+                        part.violation(sig + ":another amount", {"result": repr(r), "got_base": float(got), "expected_base": float(want)})
+    return part
+
+
 XY = [(1.5, -2.25), (0.0, 1.0), (-1e3, 1e-3)]
 
 
@@ -159,6 +209,8 @@ def _simple_task(qts):
 def _dispatch(task):
     if task[0] == "simple":
         return _simple_task(task[1])
+    if task[0] == "mixed":
+        return _mixed_task(task[1])
     return _pairs_task(task)
 
 
@@ -172,7 +224,7 @@ def run(ctx):
     if ctx.thorough:
         tasks += [(c, "v2") for c in chunks(range(len(graph)), 48)]
     # interleave quantity types so that shards are balanced
-    tasks += [("simple", qts[i::24]) for i in range(24)]
+    tasks += [("simple", qts[i::24]) for i in range(24)] + [("mixed", None)]
     run_sharded(ctx, _dispatch, tasks)
     c = ctx.part.counters
     ctx.level = "model_checking"
@@ -188,6 +240,7 @@ def run(ctx):
         "max_depth": depth,
         "same_dimension_pairs": c.get("pairs", 0),
         "simple_unit_pairs_x_values_x_categories": c.get("simple_pairs", 0),
+        "sums_with_a_mixed_unit_operand": c.get("mixed_unit_sums", 0),
         "alphabet": {"atoms": algebra.BASIS, "values": algebra.PRIMES, "ops": ["a+b", "a-b", "b+a", "(a+b)-b"], "containers": ["Scalar", "Array[list]", "Array[tuple]", "Array[ndarray]"], "simple_values": XY},
     }
     ctx.assumptions = [
